@@ -3,11 +3,12 @@
 from __future__ import annotations
 
 import ast
+import itertools
 
 from .. import cfg as cfgmod
 from ..astutil import call_name, const_str, enclosing_loops, guard_texts, kw, star_kwargs
 from ..callgraph import CallGraph
-from ..interp import Obj, Raised, Sym, explore
+from ..interp import NodeVal, Obj, Raised, Sym, explore
 from ..loader import AnalysisError, ancestors, norm, parent, walk_own
 from ..prov import Prov, xml_sites
 from ..report import Rule
@@ -295,6 +296,21 @@ def run(ctx):
         except Raised as r:
             raised = "PyXFormError" in r.mro
         r4.check(raised == expect, f"sibling-uniqueness[{desc}]", "siblings with the same name (case-insensitively) are rejected, distinct ones accepted", sib.loc())
+    # every kind of sibling takes part: a group or repeat named like a sibling question is as ambiguous as two questions
+    kinds = {"question": repo.cls("pyxform.question:InputQuestion"), "group": repo.cls("pyxform.section:GroupedSection"),
+             "repeat": repo.cls("pyxform.section:RepeatingSection")}
+    for (k1, c1), (k2, c2) in itertools.product(kinds.items(), kinds.items()):
+        for n1, n2, expect in (("a", "a", True), ("a", "b", False)):
+            it = ctx.interp("C02.R4")
+            it.reset([])
+            kids = [Obj(c1, {"name": n1, "children": [], "type": k1}, name=f"{k1}:{n1}"), Obj(c2, {"name": n2, "children": [], "type": k2}, name=f"{k2}:{n2}")]
+            o = Obj(repo.cls("pyxform.section:GroupedSection"), {"children": kids, "name": "sec"}, name="section")
+            try:
+                it.call_function(sib, [o], {}, None, sib.node)
+                raised = False
+            except Raised as r:
+                raised = "PyXFormError" in r.mro
+            r4.check(raised == expect, f"sibling-uniqueness[{k1} {n1!r} + {k2} {n2!r}]", "a name shared by two siblings of any kind is rejected; distinct names are accepted", sib.loc())
     secn = scls.methods["_validate_uniqueness_of_section_names"]
     for desc, names, expect in (("two sections same name", ["data", "g", "g"], True), ("section named like the form", ["data", "data"], True),
                                 ("distinct", ["data", "g", "h"], False)):
@@ -317,6 +333,23 @@ def run(ctx):
              and const_str(ctx, xb.module, c.args[0]) == (True, "bind")]
     r5.check(len(binds) == 1 and not enclosing_loops(binds[0]), "SurveyElement.xml_bindings", "exactly one bind is constructed, outside any loop", xb.loc(),
              why_fail=f"{len(binds)} bind constructions")
+    # an author column `bind::nodeset` must never redirect the bind to another node: evaluated abstractly, the emitter
+    # either refuses (any exception: C17 records the TypeError of the pinned tree) or keeps the element's own path
+    from ..xmlmodel import SurveyStub, base_hooks
+    for evil in ("/data/other", "${other}"):
+        stub = SurveyStub()
+        it = ctx.interp("C02.R5", hooks=base_hooks(stub))
+        it.reset([])
+        o = Obj(se, {"bind": {"type": "string", "nodeset": evil}, "name": "q1", "flat": None, "trigger": None}, name="q1",
+                slots=("name", "label", "bind", "trigger", "flat", "type"))
+        try:
+            res = [n for n in (it.call_function(xb, [o], {"survey": stub.obj()}, None, xb.node) or []) if n is not None]
+            ns = res[0].attrs.get("nodeset") if res and isinstance(res[0], NodeVal) else None
+            own = isinstance(ns, Sym) and "XPATH" in ns.tags and ns.attrs.get("of") is o
+            r5.check(own and len(res) == 1, f"xml_bindings[bind::nodeset={evil!r}]", "a nodeset supplied through the bind columns cannot replace the element's own path",
+                     xb.loc(), why_fail=f"nodeset={ns!r}")
+        except Raised as e:
+            r5.ok(f"xml_bindings[bind::nodeset={evil!r}]", f"refused ({e.exc_name}); no bind is emitted for a foreign nodeset", xb.loc())
     xdb = scls.methods["xml_descendent_bindings"]
     calls = [c for c in walk_own(xdb.node) if isinstance(c, ast.Call) and call_name(c) == "xml_bindings"]
     r5.check(len(calls) == 1 and len(enclosing_loops(calls[0])) == 1 and "iter_descendants" in norm(enclosing_loops(calls[0])[0].iter),
